@@ -375,7 +375,7 @@ class Fock(BaseState):
                     self.dimensions = new_dimensions
                     return True
                 num_quanta = num_quanta_vector(self.state)
-                if self.dimensions > new_dimensions and num_quanta < new_dimensions + 1:
+                if self.dimensions > new_dimensions and num_quanta < new_dimensions:
                     self.state = self.state[:new_dimensions]
                     self.dimensions = new_dimensions
                     return True
